@@ -191,7 +191,7 @@ func runRace(c *vlib.Ctx, self string, cid int, in raceIn) []map[string]any {
 		procs[i] = startLocker(self, dataDir, "contend", i, journal, strconv.Itoa(in.Rounds), strconv.Itoa(r.Intn(1<<30)), strconv.Itoa(in.HoldMs))
 	}
 	for i := 1; i <= in.N; i++ {
-		if procs[i].line(30*time.Second) != "ready" {
+		if procs[i].line(120*time.Second) != "ready" {
 			vlib.Fatal("contender %d did not start", i)
 		}
 	}
@@ -218,7 +218,7 @@ func runRace(c *vlib.Ctx, self string, cid int, in raceIn) []map[string]any {
 		// a probe contender: one acquisition, must come through while the others keep racing
 		t0 := time.Now()
 		pr := startLocker(self, dataDir, "contend", next, journal, "1", strconv.Itoa(r.Intn(1<<30)), "0")
-		pr.line(30 * time.Second)
+		pr.line(120 * time.Second)
 		io.WriteString(pr.in, "go\n")
 		res := pr.line(15 * time.Second)
 		pr.in.Close()
@@ -273,10 +273,10 @@ func runAvail(c *vlib.Ctx, self string, cid int, in availIn) []map[string]any {
 	journal := filepath.Join(root, "journal")
 	out := map[string]any{"held": false, "second": false, "ended": false, "probe": false, "probe_err": "", "ms": 0}
 	h := startLocker(self, dataDir, "hold", 1, journal)
-	out["held"] = h.line(30*time.Second) == "held"
+	out["held"] = h.line(120*time.Second) == "held"
 	probe := func() (bool, string) {
 		p := startLocker(self, dataDir, "probe", 2, journal)
-		res := p.line(30 * time.Second)
+		res := p.line(120 * time.Second)
 		p.in.Close()
 		p.wait(10 * time.Second)
 		return res == "ok", res
